@@ -12,7 +12,8 @@
      a Go string either; [esc] nevertheless follows appendEscapedRune and prints it as �.)
    * unicode.IsPrint is a table of the Go runtime; it enters as the argument [printable].
    * Unquote can produce strings that are not valid UTF-8: the escapes \xHH and \ooo denote single BYTES.
-     When such a byte is >= 0x80 the result is not a code point list; the model then answers [UOutside]
+     When such a byte is >= 0x80 the result is not a code point list (or only by accident: the bytes
+     of \xc3\xa9 combine to one code point); the model then answers [UOutside]
      (Go accepts the input, the model does not describe the result).  Inputs quoted with ' or ` are
      [UOutside] as well.  Every other outcome is exact: [UOk s] = Go returns s, [USyntax] = Go returns
      ErrSyntax.
